@@ -21,6 +21,10 @@ git apply -R "$OUT/patch.diff" || { echo "cannot revert the patch in the worktre
 ( eval "$DEMO" ) > /tmp/seed/$ID.demo-without.log 2>&1; echo "exit=$?"; tail -2 /tmp/seed/$ID.demo-without.log | cut -c1-200
 git apply "$OUT/patch.diff"
 fi
+# the checks run against /repo's CURRENT head plus the change (the sub-agent's worktree may be older)
+HW=/tmp/seed/$ID.head
+git -C /repo worktree remove --force "$HW" >/dev/null 2>&1; rm -rf "$HW"
+if git -C /repo worktree add -q --detach "$HW" HEAD && (cd "$HW" && git apply "$OUT/patch.diff"); then WT=$HW; else echo "NOTE: patch does not apply to the current head; using the sub-agent's worktree"; fi
 echo "--- checks against the change (scratch copy of /verif, VERIF_REPO=$WT)"
 SV=/tmp/seed/$ID.verif
 mkdir -p "$SV"
@@ -32,3 +36,4 @@ for c in "$@"; do
   echo "$out" | grep -E '^(violation:|INFRA)' | head -${SHOW:-3} | cut -c1-300
 done
 rm -rf "$SV"
+git -C /repo worktree remove --force "$HW" >/dev/null 2>&1; rm -rf "$HW"; git -C /repo worktree prune
